@@ -125,8 +125,9 @@ def seed_factory(name):
 class Ctx(object):
     """Per-execution build context: tap logs, do_action logs."""
 
-    def __init__(self):
+    def __init__(self, track_states=False):
         self.logs = {}
+        self.states = set() if track_states else None
 
     def log(self, name):
         return self.logs.setdefault(name, [])
@@ -173,7 +174,7 @@ op('assert', lambda c, f: rs.ops.assert_(F(f)), lambda f: M.Map(lambda x: x))
 op('assert_1', lambda c, f: rs.ops.assert_1(F(f)), lambda f: M.Map(lambda x: x))
 op('progress', lambda c, n: rs.ops.progress('p', n, measure_throughput=False), lambda n: M.Map(lambda x: x))
 op('progress_t', lambda c, n: rs.ops.progress('p', n, measure_throughput=True), lambda n: M.Map(lambda x: x))
-op('tap', lambda c, name: tap(c.log(name)), lambda name: M.Map(lambda x: x))
+op('tap', lambda c, name: tap(c.log(name), states=c.states), lambda name: M.Map(lambda x: x))
 
 # folds
 op('scan', lambda c, f, seed, reduce=False, term=None: rs.ops.scan(F(f), seed_arg(seed), reduce=reduce, terminator=F(term)),
